@@ -53,14 +53,30 @@ TRUSTED = [
 	'the whole state machine (start line, header block with eager consumption, hooks) is modelled in Model/Parser.lean and compared with the code call by call under every generated fragmentation; the Lean theorems cover the body framing layer for all inputs (Content-Length and chunked with trailers), the header section for well-formed sections, and the whole loop for well-formed pipelines of Content-Length and chunked messages; fragmentation independence on malformed and hostile streams is correspondence + the differential oracle',
 	'zlib, RFC 2047 encoded words and internationalised host names are outside the model (skipped, counted)',
 ]
-ASSUMPTIONS = ['known findings F17 (bare LF selects LF line ends depending on what is in the buffer), F18 (411 depends on pipelined octets in the buffer), F19 (an invalid header line is reported early or late) delimit the domain']
-RULE = ('streams: pipelines from an independent RFC 7230 writer (requests and responses; CL and chunked bodies with extensions and trailers), truncated at random points, and grammar-aware mutations; '
+ASSUMPTIONS = ['known findings F17 (bare LF selects LF line ends depending on what is in the buffer), F18 (411 depends on pipelined octets in the buffer), F19 (an invalid header line is reported early or late) delimit the domain', 'a status raised by parse() ends the history: the state machine is not fed again after an error (DESIGN.md 6.2)']
+RULE = ('streams: long start lines and header lines that cross 1024 ... 65536 octets (and any finite MAX_* limit the state machines carry) cut inside the line; pipelines from an independent RFC 7230 writer (requests and responses; CL and chunked bodies with extensions and trailers), truncated at random points, and grammar-aware mutations; '
 	'each under one-call, per-octet, and k random fragmentations (quick 6, thorough 14) plus all 2^(n-1) cuts for streams of <= 12 octets; both state machines; '
 	'non-trivial = at least one message delivered or an HTTP error raised and all fragmentations agree; distinct by (side, one-call outcome)')
 BATCH = 3000
 
 
 BOUNDARY = [b'\r\n', b'\r\n', b'\r\n\r\n', b'\n', b'\r', b' ', b'\t', b'\r\n ', b'\x00', b'\r\n\r\n\r\n']
+
+
+LINE_SIZES = (1024, 2048, 4096, 8000, 8192, 16384, 32768, 65536)
+
+
+def live_limits():
+	"""finite size limits the state machines carry on this tree (only to aim the generator; none on the pinned tree)"""
+	out = set()
+	for side in ('server', 'client'):
+		sm = parserutil.new_sm(side)
+		for name in dir(sm):
+			if name.startswith('MAX_'):
+				v = getattr(sm, name)
+				if isinstance(v, int) and 16 < v < 200000:
+					out.add(v)
+	return out
 
 
 def fragmentations(rng, n, k):
@@ -96,6 +112,21 @@ def cases(rng, tier):
 		for mask in range(0, 2 ** (n - 1), 1 if tier == 'thorough' else 37):
 			allcuts.append(tuple(i + 1 for i in range(n - 1) if mask >> i & 1))
 		yield ('s', side, s, tuple(allcuts[:4096]))
+	# long lines: a start line / header line that crosses a round size while the target or value alone does not; cut once
+	# inside the line beyond that size, a few sparse cuts, and (for the smaller sizes) octet by octet
+	for size in sorted(set(LINE_SIZES) | live_limits()):
+		if tier == 'quick' and size > 20000 and rng.random() < 0.5:
+			continue
+		t = (b'/' + bytes(rng.choice(b'abcdefgh/') for _ in range(size - 11))).replace(b'//', b'/a')
+		for side, s, at in (
+			('server', b'GET ' + t + b' HTTP/1.1\r\nHost: h\r\n\r\n', len(t) + 6),
+			('server', b'GET / HTTP/1.1\r\nHost: h\r\nX-Long: ' + t + b'\r\n\r\n', 25 + len(t) + 6),
+			('client', b'HTTP/1.1 200 ' + t + b'\r\nContent-Length: 0\r\n\r\n', len(t) + 15),
+		):
+			frs = [(), (at,), (at - 3, at + 2), tuple(sorted({rng.randrange(1, len(s)) for _ in range(6)}))]
+			if size <= 8192:
+				frs.append(tuple(range(1, len(s))))
+			yield ('s', side, s, tuple(frs))
 	n = 12000 if tier == 'thorough' else 1800
 	for _ in range(n):
 		side = rng.choice(('server', 'server', 'client'))
